@@ -90,12 +90,9 @@ func (db *DB) repairCompactions() error {
 		absReplacementPath := filepath.Join(db.basePath, meta.ReplacementPath)
 
 		log.Printf("finishing compaction in %s into %s", absWritePath, absReplacementPath)
+		// all inputs have to be gone before the rename: the marker of the successful compaction lives in the folder that
+		// is renamed, so after the rename nothing tells a later recovery anymore that half deleted inputs must go
 		err := os.RemoveAll(absReplacementPath)
-		if err != nil {
-			return err
-		}
-
-		err = os.Rename(absWritePath, absReplacementPath)
 		if err != nil {
 			return err
 		}
@@ -107,6 +104,11 @@ func (db *DB) repairCompactions() error {
 					return err
 				}
 			}
+		}
+
+		err = os.Rename(absWritePath, absReplacementPath)
+		if err != nil {
+			return err
 		}
 	}
 
